@@ -501,6 +501,44 @@ fn ref_varint_decode(bytes: &[u8]) -> Result<(i32, usize), ()> {
     Err(())
 }
 
+/// Byte form of a case for the coverage-guided target `reader` (total decoder).
+/// byte 0: kind (0-5 operation sequence, 6 VarInt decode, 7 string round trip) and endianness (bit 3);
+/// byte 1: number of operations n (mod 24); n operation bytes; the rest is the packet / the bytes / the string.
+pub fn decode_case(data: &[u8]) -> Case {
+    let h = |i: usize| data.get(i).copied().unwrap_or(0);
+    match h(0) & 7 {
+        6 => Case::VarintDecode { bytes: crate::wire::hex(data.get(1 ..).unwrap_or(&[])) },
+        7 => Case::StringRoundtrip { s: String::from_utf8_lossy(data.get(1 ..).unwrap_or(&[])).chars().take(4000).collect() },
+        _ => {
+            let n = (h(1) % 24) as usize;
+            let mut ops = Vec::new();
+            for i in 0 .. n {
+                let b = h(2 + i);
+                ops.push(match b % 32 {
+                    x @ 0 ..= 9 => Op::Read(NUMS[x as usize]),
+                    x @ 10 ..= 16 => Op::Str(DECS[(x - 10) as usize]),
+                    17 ..= 20 => Op::Move(((b / 32) as i16) - 3),
+                    21 => Op::Move(b as i16),
+                    22 => Op::Move(-(b as i16)),
+                    23 => Op::Move(i16::MAX),
+                    24 => Op::Move(i16::MIN),
+                    25 | 26 => Op::Switch(b / 32),
+                    27 | 28 => Op::Remaining,
+                    29 | 30 => Op::RemainingBytes,
+                    _ => Op::Position,
+                });
+            }
+            Case::Ops { packet: crate::wire::hex(data.get(2 + n ..).unwrap_or(&[])), be: h(0) & 8 != 0, ops }
+        }
+    }
+}
+
+/// One fuzz iteration: the signature and detail of a failure, or None.
+pub fn fuzz_one(data: &[u8]) -> Option<(String, serde_json::Value, Case)> {
+    let case = decode_case(data);
+    C17.run(&case).failure.map(|f| (f.signature, f.detail, case))
+}
+
 pub struct C17;
 
 fn op_strategy() -> impl Strategy<Value = Op> {
